@@ -1,7 +1,7 @@
 (* Lemmas about the specification checker Spec/Valid.v.
    Part A: accounted_b P S = [] <-> Accounted P S  (soundness and completeness of the C02 checker).
    Part R: the independent replay of Valid.v coincides with the Core model of update_schedules / update_statistics. *)
-From VRP Require Import Base.Tac Model.Core Spec.Feasible Spec.Valid.
+From VRP Require Import Base.Tac Model.Core Spec.Feasible Spec.Intervals Proofs.IntervalsP Spec.Valid.
 
 (* ------------------------------------------------------------------ generic list facts *)
 Lemma app_nil_iff {A} (l1 l2 : list A) : l1 ++ l2 = [] <-> l1 = [] /\ l2 = [].
@@ -142,8 +142,47 @@ Proof.
     exfalso. apply H. apply in_map_iff. exists b. split; [|exact Hb]. apply same_shift_key in Hs. symmetry. exact Hs.
 Qed.
 
+(* ---- reloads: the backtracking assignment finds a matching iff one exists *)
+Lemma picks_In {A} (l : list A) : forall p rest,
+  In (p, rest) (picks l) <-> exists pre post, l = pre ++ p :: post /\ rest = pre ++ post.
+Proof.
+  induction l as [|x r IH]; intros p rest; cbn [picks].
+  - split; [intros []|]. intros [pre [post [H _]]]. destruct pre; discriminate.
+  - split.
+    + intros [H|H].
+      * injection H as <- <-. exists [], r. split; reflexivity.
+      * apply in_map_iff in H. destruct H as [[y yr] [Heq Hin]]. cbn [fst snd] in Heq. injection Heq as <- <-.
+        apply IH in Hin. destruct Hin as [pre [post [H1 H2]]]. exists (x :: pre), post. cbn [app]. rewrite H1, H2. split; reflexivity.
+    + intros [pre [post [H1 H2]]]. destruct pre as [|y pre]; cbn [app] in H1, H2.
+      * injection H1 as <- <-. left. rewrite H2. reflexivity.
+      * injection H1 as <- H1. right. apply in_map_iff. exists (p, pre ++ post). split; [cbn [fst snd]; rewrite H2; reflexivity|].
+        apply IH. exists pre, post. split; [exact H1|reflexivity].
+Qed.
+
+Lemma assign_b_iff : forall acts avail, assign_b acts avail = true <-> Assign acts avail.
+Proof.
+  induction acts as [|a r IH]; intros avail; cbn [assign_b].
+  - split; [intros _; constructor|reflexivity].
+  - rewrite existsb_exists. split.
+    + intros [[p rest] [Hin Hb]]. cbn [fst snd] in Hb. apply andb_true_iff in Hb. destruct Hb as [Hf Hr].
+      apply picks_In in Hin. destruct Hin as [pre [post [-> ->]]]. constructor; [exact Hf|]. apply IH. exact Hr.
+    + intros H. inversion H as [|a' r' pre p post Hf Hr]; subst. exists (p, pre ++ post). split.
+      * apply picks_In. exists pre, post. split; reflexivity.
+      * cbn [fst snd]. rewrite Hf. cbn [andb]. apply IH. exact Hr.
+Qed.
+
+Lemma reloads_ok_iff P t : reloads_ok P t = true <-> ReloadsDefined P t.
+Proof.
+  unfold reloads_ok, ReloadsDefined. destruct (shift_of P t) as [[vt sh]|].
+  - rewrite assign_b_iff. split.
+    + intros H vt' sh' Heq. injection Heq as <- <-. exact H.
+    + intros H. apply (H vt sh eq_refl).
+  - split; [intros _ vt sh H; discriminate|reflexivity].
+Qed.
+
 Definition TourOk (P : pproblem) (t : stour) : Prop :=
-  TourNamesShift P t /\ job_acts t <> [] /\ (forall a, In a (flat_tour t) -> extra_kind (fa_kind a) = false).
+  TourNamesShift P t /\ job_acts t <> [] /\ (forall a, In a (flat_tour t) -> extra_kind (fa_kind a) = false)
+  /\ ReloadsDefined P t.
 
 Lemma tour_viols_nil P l : forall k before,
   tour_viols P k before l = [] <->
@@ -157,17 +196,17 @@ Proof.
     { rewrite <- shift_of_some_iff. destruct (shift_of P t); split; intros H; try reflexivity; try discriminate; congruence. }
     assert (HB : (match job_acts t with [] => [ATourEmpty k] | _ => [] end) = [] <-> job_acts t <> []).
     { destruct (job_acts t); split; intros H; try reflexivity; try discriminate; congruence. }
-    rewrite HA, HB, !ifn_nil_iff, existsb_same_shift.
+    rewrite HA, HB, !ifn_nil_iff, existsb_same_shift, if_nil_iff, reloads_ok_iff.
     rewrite (existsb_false_iff (fun a => extra_kind (fa_kind a)) (flat_tour t)).
     split.
-    + intros [H1 [H2 [H3 [H4 [H5 [H6 H7]]]]]]. split; [|split].
-      * intros t0 [<-|Ht0]; [split; [exact H1|split; [exact H2|exact H4]]|apply H5; exact Ht0].
+    + intros [H1 [H2 [H3 [H4 [HR [H5 [H6 H7]]]]]]]. split; [|split].
+      * intros t0 [<-|Ht0]; [split; [exact H1|split; [exact H2|split; [exact H4|exact HR]]]|apply H5; exact Ht0].
       * constructor; [|exact H6]. intros Hin. apply in_map_iff in Hin. destruct Hin as [b [Hk Hb]].
         apply (H7 b Hb). rewrite map_app, in_app_iff. right. left. symmetry. exact Hk.
       * intros t0 [<-|Ht0]; [exact H3|]. intros Hin. apply (H7 t0 Ht0). rewrite map_app, in_app_iff. left. exact Hin.
     + intros [H1 [H2 H3]]. inversion H2 as [|x xs Hnin Hnd]; subst.
-      destruct (H1 t (or_introl eq_refl)) as [Ha [Hb Hc]].
-      split; [exact Ha|]. split; [exact Hb|]. split; [apply H3; left; reflexivity|]. split; [exact Hc|].
+      destruct (H1 t (or_introl eq_refl)) as [Ha [Hb [Hc Hre]]].
+      split; [exact Ha|]. split; [exact Hb|]. split; [apply H3; left; reflexivity|]. split; [exact Hc|]. split; [exact Hre|].
       split; [intros t0 Ht0; apply H1; right; exact Ht0|]. split; [exact Hnd|].
       intros t0 Ht0 Hin. rewrite map_app, in_app_iff in Hin. destruct Hin as [Hin|[Hin|[]]].
       * apply (H3 t0 (or_intror Ht0)). exact Hin.
@@ -187,9 +226,11 @@ Proof.
     + intros t Hin. apply (Ht t Hin).
     + exact Hnd.
     + intros t a Hin. apply (Ht t Hin).
-  - intros [Hj Hf1 Hf2 Hs Hv Hnd He]. split; [|split; [split; [exact Hf1|exact Hf2]|split; [|split; [exact Hnd|]]]].
+    + intros t Hin. apply (Ht t Hin).
+  - intros [Hj Hf1 Hf2 Hs Hv Hnd He Hre]. split; [|split; [split; [exact Hf1|exact Hf2]|split; [|split; [exact Hnd|]]]].
     + intros job Hin. apply job_viol_nil. apply Hj. exact Hin.
-    + intros t Hin. split; [apply Hs; exact Hin|]. split; [apply Hv; exact Hin|]. intros a Ha. apply (He t a Hin Ha).
+    + intros t Hin. split; [apply Hs; exact Hin|]. split; [apply Hv; exact Hin|]. split; [intros a Ha; apply (He t a Hin Ha)|].
+      apply Hre. exact Hin.
     + intros t _ [].
 Qed.
 
@@ -330,6 +371,31 @@ Proof.
   - intros H. split; [intros n t g _ _ []|exact H].
 Qed.
 
+(* task order: the all-pairs checker decides "no later value is smaller" *)
+Lemma sorted_b_iff l : sorted_b l = true <-> Sorted l.
+Proof.
+  unfold Sorted. induction l as [|x r IH]; cbn [sorted_b].
+  - split; [|reflexivity]. intros _ l1 a l2 b l3 H. destruct l1; discriminate.
+  - rewrite andb_true_iff, IH, forallb_forall. split.
+    + intros [Hx Hr] l1 a l2 b l3 Heq. destruct l1 as [|y l1]; cbn [app] in Heq; injection Heq as Hxa Hrest.
+      * subst x r. apply Z.leb_le. apply Hx. apply in_or_app. right. left. reflexivity.
+      * subst. eapply Hr. reflexivity.
+    + intros H. split.
+      * intros b Hb. apply Z.leb_le. apply in_split in Hb. destruct Hb as [l2 [l3 ->]]. apply (H [] x l2 b l3). reflexivity.
+      * intros l1 a l2 b l3 Heq. apply (H (x :: l1) a l2 b l3). cbn [app]. rewrite Heq. reflexivity.
+Qed.
+
+Lemma order_viols_nil P S :
+  order_viols P S = [] <->
+  forall n t r, nth_error (sl_tours S) n = Some t -> rebuild (order_problem P) t = Some r -> Sorted (order_seq r).
+Proof.
+  unfold order_viols. rewrite mapi_nil_iff. split.
+  - intros H n t r Hn Hr. specialize (H n t Hn). unfold order_viol in H. rewrite Hr in H.
+    apply if_nil_iff in H. apply sorted_b_iff. exact H.
+  - intros H n t Hn. unfold order_viol. destruct (rebuild (order_problem P) t) as [r|] eqn:Hr; [|reflexivity].
+    apply if_nil_iff. apply sorted_b_iff. apply (H n t r Hn Hr).
+Qed.
+
 (* the three static rules together *)
 Lemma static_rules_nil P S :
   compat_viols P S ++ group_viols P S ++ reach_viols P S = [] <->
@@ -363,7 +429,7 @@ Qed.
 Lemma dims_feasible_viols_nil P S :
   dims_feasible_viols P S = [] <->
   forall n t d r, nth_error (sl_tours S) n = Some t -> (d < xdims P)%nat ->
-                  rebuild (dim_problem d P) (dim_tour d t) = Some r -> load_feasible (v_cap (rb_veh r)) (rb_acts r) = true.
+                  rebuild (dim_problem d P) (dim_tour d t) = Some r -> ivl_load_feasible (v_cap (rb_veh r)) (rb_acts r) = true.
 Proof.
   unfold dims_feasible_viols. rewrite mapi_nil_iff. split.
   - intros H n t d r Hn Hd Hr. specialize (H n t Hn). cbv beta in H. rewrite flat_map_nil_iff in H.
@@ -374,6 +440,20 @@ Proof.
     unfold dim_tour_viol. destruct (rebuild (dim_problem d P) (dim_tour d t)) as [r|] eqn:Hr; [|reflexivity].
     cbv zeta. cbn [fst]. apply if_nil_iff. apply (H n t d r Hn); [lia|exact Hr].
 Qed.
+
+(* ------------------------------------------------------------------ reload intervals: the single-interval case *)
+Definition no_reload (t : list act) : bool := forallb (fun a => negb (is_reload a)) t.
+
+(* without reload activities the verdict is the one of Spec.Feasible.feasible: the C01 / C06 theorems about `feasible` speak
+   about exactly what the end-to-end checker evaluates on such tours *)
+Lemma feasible_x_single dur v t : no_reload t = true -> feasible_x dur v t = feasible dur v t.
+Proof. intros H. unfold feasible_x, feasible. rewrite (ivl_load_feasible_single _ _ H). reflexivity. Qed.
+
+Lemma ld_from_loads_from : forall t l, ld_from l t = loads_from l t.
+Proof. induction t as [|a r IH]; intros l; cbn [ld_from loads_from]; [reflexivity|]. cbv zeta. rewrite IH. reflexivity. Qed.
+
+Lemma replay_loads_x_single has_end t : no_reload t = true -> replay_loads_x has_end t = replay_loads has_end t.
+Proof. intros H. unfold replay_loads_x, replay_loads. rewrite (ivl_loads_single _ H), ld_from_loads_from. reflexivity. Qed.
 
 (* ------------------------------------------------------------------ Part R: the replay is the Core schedule model *)
 Lemma replay_from_resched dur loc dep acts :
@@ -397,9 +477,9 @@ Proof. destruct t; cbn [tour_legs total_distance]; [reflexivity|]. apply legs_su
 (* three locations on a line (10 apart); job 1 = delivery at location 1 (5 s service), job 2 = pickup at location 2 with a
    window that closes at 10; one vehicle, closed shift, fixed 7, distance price 1, time price 2 *)
 Definition ex_P : pproblem :=
-  mkPProblem [mkPJob 1 [mkPTask 1 [mkPPlace 1 5 [(0, 100)] None] 1] true [] [] [] None None [];
-              mkPJob 2 [mkPTask 0 [mkPPlace 2 0 [(0, 10)] None] 1] true [] [] [] None None []]
-             [mkPVType 1 [1] [mkPShift 0 0 INF (Some (0, 1000))] 10 7 1 2 [] None None None []]
+  mkPProblem [mkPJob 1 [mkPTask 1 [mkPPlace 1 5 [(0, 100)] None] 1] true [] [] [] None None [] [];
+              mkPJob 2 [mkPTask 0 [mkPPlace 2 0 [(0, 10)] None] 1] true [] [] [] None None [] []]
+             [mkPVType 1 [1] [mkPShift 0 0 INF (Some (0, 1000)) []] 10 7 1 2 [] None None None []]
              3 [0; 10; 20; 10; 0; 10; 20; 10; 0] [0; 10; 20; 10; 0; 10; 20; 10; 0] [].
 Definition ex_stat : sstat := mkSStat 77 20 25 20 5 0 0.
 Definition ex_tour : stour :=
